@@ -119,8 +119,8 @@ func sameContents(a, b any) bool {
 	return false
 }
 
-func lenOf(v any) int  { return reflect.ValueOf(v).Len() }
-func capOf(v any) int  { return reflect.ValueOf(v).Cap() }
+func lenOf(v any) int { return reflect.ValueOf(v).Len() }
+func capOf(v any) int { return reflect.ValueOf(v).Cap() }
 func typeOf(v any) string {
 	switch v.(type) {
 	case []int:
@@ -247,6 +247,7 @@ func famT2() family[T2] {
 		return frt.NewTuple2(n, s[i+1:]), err == nil
 	}}
 }
+
 var fltMaps = map[string]func(float64) float64{"flt.id": func(x float64) float64 { return x }, "flt.half": func(x float64) float64 { return x / 2 }}
 var fltPreds = map[string]func(float64) bool{"flt.pos": func(x float64) bool { return x > 0 }, "any.true": func(float64) bool { return true }, "any.false": func(float64) bool { return false }}
 
@@ -746,6 +747,9 @@ func genHistoryC12(r *common.Rng, seed int64, run int) *History {
 	for i, n := 0, r.Range(1, 4); i < n; i++ {
 		t := types[r.Intn(len(types))]
 		ln := r.Intn(7)
+		if r.Chance(1, 5) {
+			ln = r.Range(17, 40) // long values: thresholds on length or capacity (16, 32) are boundaries too
+		}
 		var elems string
 		switch t {
 		case "[]int", "[]T2":
@@ -908,6 +912,17 @@ func genHistoryC12(r *common.Rng, seed int64, run int) *History {
 			break
 		}
 		f := sameOps[r.Intn(len(sameOps))]
+		// runs: keep shortening (or extending) the most recent result, the way a stack is popped down or built up
+		if len(h.Ops) > 0 && r.Chance(1, 3) {
+			last := h.Ops[len(h.Ops)-1]
+			if last.Out > 0 && (last.F == "slice.PopLast" || last.F == "slice.Tail" || last.F == "slice.PushLast") {
+				for _, gv := range vals {
+					if gv.id == last.Out {
+						v, f = gv, last.F
+					}
+				}
+			}
+		}
 		op := Op{F: f}
 		self := fmt.Sprint("#", v.id)
 		outLen := -1
